@@ -865,7 +865,10 @@ def F12(m, R):
     for qual, accepted in (('AnsiString.__iadd__', {'str', 'AnsiString'}), ('AnsiString.join', {'str', 'AnsiString'}),
                            ('AnsiString.__init__', {'str', 'AnsiString', 'AnsiStr'}), ('AnsiStr.__new__', {'str', 'AnsiString', 'AnsiStr'})):
         fn_ = m.fn(qual)
-        kinds = {norm(n.args[1]) for n in fn_.walk() if isinstance(n, ast.Call) and call_name(n) == 'isinstance'}
+        kinds = set()
+        for n in fn_.walk():
+            if isinstance(n, ast.Call) and call_name(n) == 'isinstance' and len(n.args) == 2:
+                kinds |= {norm(x) for x in (n.args[1].elts if isinstance(n.args[1], ast.Tuple) else [n.args[1]])}
         raises = [n for n in fn_.walk() if isinstance(n, ast.Raise)]
         ok = accepted <= kinds and any(call_name(r.exc) == 'TypeError' for r in raises) and all(call_name(r.exc) in ('TypeError', 'ValueError') for r in raises)
         R.check(ok, fn_, fn_.node, '%s accepts %s and raises TypeError otherwise' % (qual, '/'.join(sorted(accepted))),
